@@ -145,9 +145,9 @@ func cmdCheck(args []string) {
 	t0 := time.Now()
 	g := mustLoad()
 	keys := g.funcsForProp(*prop)
-	timeout := 40
+	timeout := 60
 	if *tier == "thorough" {
-		timeout = 150
+		timeout = 200
 	}
 	type fres struct {
 		key string
@@ -183,7 +183,7 @@ func cmdCheck(args []string) {
 			canaries = append(canaries, job{sc, cn})
 		}
 	}
-	dischargeAll(jobs, timeout, 16, *tier == "thorough")
+	dischargeAll(jobs, timeout, 12, *tier == "thorough")
 	ctime := 2
 	if *tier == "thorough" {
 		ctime = 5
